@@ -114,6 +114,10 @@ class C06(ExprProp):
             e = G.rand_expr(rng, rng.range(2, 5), calls=True)
             items.append((e, G.layout_for(e, rng, rng.choice(["canon", "tight", "random"])), "random-deep"))
         cases = expr_cases(items, starstar=True)
+        # sums of MANY calls in one query (a two-argument call, a one-argument call and a group must
+        # each leave the parser in the state they found it: the 127th behaves like the first)
+        from . import extragen as X
+        cases += X.long_call_chains(rng, tier)
         # the FULL language (quantities, temperatures, fact phrases, casts, calls, percentages, nested
         # and mixed): every expression is rendered with single spaces and under three random layouts
         # of blanks (kind and number wherever a blank stands; presence where it provably does not
@@ -350,6 +354,10 @@ class C10(ExprProp):
                     continue
                 items.append((Call(f, [L(str(i + 1)) for i in range(k)]), [], "arity"))
         cases = expr_cases(items)
+        # a call inside a NON-FIRST argument of another call (`round(2.567, floor(2.5))`; arity errors
+        # whose extra argument is a call)
+        from . import extragen as X
+        cases += X.nested_precision(rng, tier)
         # "a wrong number of arguments is an error", also when what stands between the parentheses is
         # not an argument at all (blanks, brace escapes, which parse to loose tokens)
         for f in ("floor", "ceil", "round"):
